@@ -1557,3 +1557,121 @@ R("evidence-delete-unlocked-helper", ["C18"],
 
 func (es *EvidenceStore) deleteAllegationRequestUnlocked(ID string) (bool, error) {
 	ok, err := es.delete(es.getAllegationRequestKey(ID))"""))
+
+# ------------------------------------------------------------------ C16
+JRN = "vm/journal.go"
+SOBJ = "vm/state_objects.go"
+SDB = "vm/statedb.go"
+M("revert-fix-balance-revert-journals", "C16", "C16.revert-pure",
+  (JRN, """	s.getStateObject(*ch.account).setBalance(ch.prev)""", """	s.getStateObject(*ch.account).SetBalance(ch.prev)"""))
+M("suicide-revert-clears-flag", "C16", "C16.record-use",
+  (JRN, """		so.suicided = ch.prev""", """		so.suicided = false"""))
+M("storage-revert-restores-zero", "C16", "C16.record-use",
+  (JRN, """	s.getStateObject(*ch.account).setState(ch.key, ch.prevValue)""", """	s.getStateObject(*ch.account).setState(ch.key, ethcmn.Hash{})"""))
+M("revert-fix-deletedirty-reindex", "C16", "C16.indexmap",
+  (JRN, """	// the entries behind the removed one moved one position to the left
+	for i := idx; i < len(j.dirties); i++ {
+		j.addressToJournalIndex[j.dirties[i].address] = i
+	}""", ""))
+M("createobject-revert-append-idiom", "C16", "C16.indexmap",
+  (JRN, """	// move the elements one position left on the array
+	for i := idx + 1; i < len(s.stateObjects); i++ {
+		s.stateObjects[i-1] = s.stateObjects[i]
+		// the new index is i - 1
+		s.addressToObjectIndex[s.stateObjects[i].address] = i - 1
+	}
+
+	//  finally, delete the last element of the slice to account for the removed object
+	s.stateObjects = s.stateObjects[:len(s.stateObjects)-1]""", """	s.stateObjects = append(s.stateObjects[:idx], s.stateObjects[idx+1:]...)"""))
+M("addbalance-not-journalled", "C16", "C16.journalled-write",
+  (SOBJ, """		return
+	}
+	so.stateDB.journal.append(balanceChange{
+		account: &so.address,
+		prev:    new(big.Int).Set(so.account.Balance()),
+	})
+	so.account.AddBalance(amount)""", """		return
+	}
+	so.account.AddBalance(amount)"""))
+M("setnonce-journals-wrong-entry", "C16", "C16.journalled-write",
+  (SOBJ, """	so.stateDB.journal.append(nonceChange{
+		account: &so.address,
+		prev:    so.account.Sequence,
+	})
+	so.setNonce(nonce)""", """	so.stateDB.journal.append(touchChange{
+		account: &so.address,
+	})
+	so.setNonce(nonce)"""))
+M("addlog-journalled-only-for-later-logs", "C16", "C16.journalled-write",
+  ("vm/statedb_logs.go", """	s.journal.append(addLogChange{txhash: s.thash})
+""", """	if len(s.logs[s.thash]) > 0 {
+		s.journal.append(addLogChange{txhash: s.thash})
+	}
+"""))
+M("suicide-not-journalled-when-already-dead", "C16", "C16.journalled-write",
+  (SDB, """	s.journal.append(suicideChange{
+		account:     &addr,
+		prev:        so.suicided,
+		prevBalance: new(big.Int).Set(so.Balance()),
+	})
+""", """	if !so.suicided {
+		s.journal.append(suicideChange{
+			account:     &addr,
+			prev:        so.suicided,
+			prevBalance: new(big.Int).Set(so.Balance()),
+		})
+	}
+"""))
+M("create-account-adds-previous-balance", "C16", "C16.create",
+  (SDB, """		newObj.SetBalance(prev.account.Balance())""", """		newObj.AddBalance(prev.account.Balance())"""))
+M("create-account-drops-previous-balance", "C16", "C16.create",
+  (SDB, """	newObj, prev := s.createObject(addr)
+	if prev != nil {
+		newObj.SetBalance(prev.account.Balance())
+	}""", """	s.createObject(addr)"""))
+M("deleteslot-drops-address", "C16", "C16.accesslist",
+  ("vm/access_list.go", """		al.slots = al.slots[:idx]
+		al.addresses[address] = -1""", """		al.slots = al.slots[:idx]
+		delete(al.addresses, address)"""))
+M("empty-ignores-nonce", "C16", "C16.empty",
+  (SOBJ, """			so.account.Sequence == 0 &&
+""", ""))
+M("empty-ignores-code", "C16", "C16.empty",
+  (SOBJ, """			(balance == nil || IsZeroAmount(balance)) &&
+			bytes.Equal(so.account.CodeHash, emptyCodeHash))""", """			(balance == nil || IsZeroAmount(balance)))"""))
+M("revert-keeps-invalidated-revision", "C16", "C16.snapshot",
+  (SDB, """	s.validRevisions = s.validRevisions[:idx]""", """	s.validRevisions = s.validRevisions[:idx+1]"""))
+M("snapshot-records-stale-length", "C16", "C16.snapshot",
+  (SDB, """			journalIndex: s.journal.length(),""", """			journalIndex: len(s.validRevisions),"""))
+R("addbalance-journal-after-write", ["C16"],
+  (SOBJ, """	so.stateDB.journal.append(balanceChange{
+		account: &so.address,
+		prev:    new(big.Int).Set(so.account.Balance()),
+	})
+	so.account.AddBalance(amount)""", """	prev := new(big.Int).Set(so.account.Balance())
+	so.account.AddBalance(amount)
+	so.stateDB.journal.append(balanceChange{
+		account: &so.address,
+		prev:    prev,
+	})"""))
+R("empty-as-if-chain", ["C16"],
+  (SOBJ, """	balance := so.account.Balance()
+	return so.account == nil ||
+		(so.account != nil &&
+			so.account.Sequence == 0 &&
+			(balance == nil || IsZeroAmount(balance)) &&
+			bytes.Equal(so.account.CodeHash, emptyCodeHash))""", """	if so.account == nil {
+		return true
+	}
+	if so.account.Sequence != 0 {
+		return false
+	}
+	if balance := so.account.Balance(); balance != nil && !IsZeroAmount(balance) {
+		return false
+	}
+	return bytes.Equal(so.account.CodeHash, emptyCodeHash)"""))
+R("deletedirty-copy-idiom", ["C16"],
+  (JRN, """	j.dirties = append(j.dirties[:idx], j.dirties[idx+1:]...)
+	delete(j.addressToJournalIndex, addr)""", """	copy(j.dirties[idx:], j.dirties[idx+1:])
+	j.dirties = j.dirties[:len(j.dirties)-1]
+	delete(j.addressToJournalIndex, addr)"""))
